@@ -285,7 +285,30 @@ def cli_path(ctx, keepfiles):
         a = data.index(b'__lua__\n') + 8
         b = data.index(b'\n__gfx__') + 1 if b'\n__gfx__' in data else len(data)
         results.append((argv[1], data[a:b]))
-    traces = [minify.make_trace(src, out, FOCUS, minify.tree_scopes(src)) for _, out in results]
+    # the same two commands on a source without a final newline (the cart writer has to supply it before the next section)
+    src2 = b'-- t\nfunction f(a) return a end\nx=f(1) y=2'
+    p2 = os.path.join(d, 'nonl.lua')
+    open(p2, 'wb').write(src2)
+    results2 = []
+    for fmt_ext in ('.p8', '.p8.png'):
+        outp = os.path.join(d, 'b2' + fmt_ext)
+        try:
+            rc = tool.main(['--quiet', 'build', outp, '--lua', p2, '--lua-minify'])
+        except SystemExit as e:
+            rc = e.code
+        except Exception as e:  # noqa
+            rc = 'exception %s' % type(e).__name__
+        if rc not in (0, None) or not os.path.exists(outp):
+            ctx.violation('cli-fails/build-nonl', 'p8tool build --lua-minify failed on a source without final newline (rc=%s)' % rc, {'kind': 'cli', 'argv': ['build']})
+            continue
+        try:
+            from pico8.game import file as gfile
+            from .. import cartio
+            results2.append(('build' + fmt_ext, cartio.game_code(gfile.from_file(outp))))
+        except Exception as e:  # noqa
+            ctx.violation('cli-build-nonl/unreadable%s' % fmt_ext, 'the cart built with --lua-minify from a source without final newline cannot be read back: %s' % type(e).__name__, {'kind': 'cli'})
+    traces = [minify.make_trace(src, out, FOCUS, minify.tree_scopes(src)) for _, out in results] + [minify.make_trace(src2, out, FOCUS, []) for _, out in results2]
+    results = results + results2
     if traces:
         v = ctx.validate('TraceMinify', traces)
         for (cmd, out), vv in zip(results, v):
